@@ -110,6 +110,11 @@ Nurikabe(h, w, p, W) ==
         /\ ConnCells(h, w, sea)
         /\ No2x2(h, w, sea)
 
+(* nurikabe with the solver's unknown_low option: an island of unknown size (-1) has at least `low` cells *)
+NurikabeLow(h, w, p, W, low) ==
+    /\ Nurikabe(h, w, p, W)
+    /\ \A c \in Cells(h, w) : p[c + 1] = -1 => Cardinality(CompOf(h, w, W, c)) >= low
+
 (* norinori: every room holds two black cells, every black cell has exactly one black neighbour *)
 Norinori(h, w, rgs, B) ==
     /\ \A R \in RoomsOfRgs(rgs) : Cardinality(R \cap B) = 2
